@@ -130,8 +130,8 @@ CONTRACTS = [
                   "implies(old(self._error) is None, exc_class(bcall_arg('errback', 0, 1)) == 'BadHandshake'))"),
                  ("pending-consumer-fails-once",
                   "implies(self._consumer_deferred is not None, "
-                  "bcall_arg('errback', bcalls('errback') - 1, 0) == self._consumer_deferred and "
-                  "exc_class(bcall_arg('errback', bcalls('errback') - 1, 1)) == 'error.ConnectionClosed')"),
+                  "last_bcall_arg('errback', 0) == self._consumer_deferred and "
+                  "exc_class(last_bcall_arg('errback', 1)) == 'error.ConnectionClosed')"),
                  ("nothing-else-fired",
                   "bcalls('errback') == ite(old(self._negotiation_d) is not None, 1, 0) + ite(self._consumer_deferred is not None, 1, 0) "
                   "and len(bcall_names()) == 1 + bcalls('errback')")],
@@ -226,7 +226,8 @@ CONTRACTS = [
     Contract(T + "Connection._negotiationSuccessful", props=[PROP], params={},
              self_fields={**F_STATE, **F_RX, "send_nonce": "int", "send_box": "obj[SecretBox]", "owner": "obj[Common]",
                           "_negotiation_d": f"opt[{DEFERRED}]"},
-             requires=["self._negotiation_d is not None", "len(self.owner._transit_key) > 0"],
+             requires=["self._negotiation_d is not None"],
+             raises_exactly={"AssertionError": "len(self.owner._transit_key) == 0"},
              modifies=["state", "send_box", "send_nonce", "receive_box", "next_receive_nonce", "_negotiation_d"],
              ensures=[("records-state", "self.state == 'records'"),
                       ("both-counters-start-at-zero", "self.send_nonce == 0 and self.next_receive_nonce == 0"),
